@@ -685,6 +685,27 @@ def matmul(a, b):
     return Opaque(shape, a.dtype, "matmul", (a, b))
 
 
+def tensordot(a, b, axes=2):
+    a, b = _lift(a), _lift(b)
+    if _isint(axes):
+        k = sx.conc(axes)
+        a_ax = tuple(range(a.ndim - k, a.ndim))
+        b_ax = tuple(range(0, k))
+    else:
+        a_ax, b_ax = axes
+        a_ax = (a_ax,) if _isint(a_ax) else tuple(a_ax)
+        b_ax = (b_ax,) if _isint(b_ax) else tuple(b_ax)
+    a_ax = _norm_axis(a_ax, a.ndim)
+    b_ax = _norm_axis(b_ax, b.ndim)
+    if len(a_ax) != len(b_ax):
+        raise ValueError("shape-mismatch for sum")
+    for i, j in zip(a_ax, b_ax):
+        if not (a.shape[i] == b.shape[j]):
+            raise ValueError("shape-mismatch for sum")
+    shape = tuple(s for d, s in enumerate(a.shape) if d not in a_ax) + tuple(s for d, s in enumerate(b.shape) if d not in b_ax)
+    return Opaque(shape, a.dtype, "tensordot", (a, b))
+
+
 class _Linalg:
     def qr(self, a, mode="reduced"):
         a = _lift(a)
@@ -893,6 +914,9 @@ class Namespace:
 
     def matmul(self, a, b):
         return matmul(a, b)
+
+    def tensordot(self, a, b, axes=2):
+        return tensordot(a, b, axes)
 
     def __getattr__(self, name):
         if name in ELEMENTWISE:
